@@ -63,12 +63,12 @@ def dump_all(graph, op, names, vals):
     return groups
 
 
-def call_all(op, cache, ov, names, vals):
+def call_all(op, cache, ov, names, vals, extra=None):
     try:
         g = G.generate_all(op, cache, ov) if ov is not None else G.generate_all(op, cache)
     except Exception as e:  # noqa
         return graphs.err_str(e)
-    return "ok:" + ";".join(dump_all(g, op, names, vals))
+    return "ok:" + ";".join(dump_all(g, op, names, vals)) + (extra(g, op, names, vals) if extra else "")
 
 
 def call_one(op, cache, ow, names, vals):
@@ -157,7 +157,7 @@ def oracle(desc, h):
     return res
 
 
-def model_line(desc, h):
+def model_line(desc, h, stream=None, extra=None):
     """encode description + history for the extracted model; returns (line, expected impl observations)"""
     names, vals, keys = Intern(), Intern(), Intern()
     ops = fresh_ops(desc)
@@ -200,14 +200,14 @@ def model_line(desc, h):
             toks_comp += [str(k), str(b), "0", "0", str(len(r[1]))] + [str(x) for x in r[1]] + [str(len(r[2]))] + [str(x) for x in r[2]]
         else:
             toks_comp += [str(k), str(b), str(r[1]), str(r[2])]
-    line = " ".join(["O", str(VARIANT_FIX)] + toks_comp + toks_ops + toks_calls)
+    line = " ".join((stream or ["O"]) + [str(VARIANT_FIX)] + toks_comp + toks_ops + toks_calls)
     # implementation, same interning
     cache = G.SampleCache()
     impl = []
     for kind, oi, o in h:
         o2 = copy.deepcopy(o)
         if kind == "all":
-            impl.append(call_all(ops[oi], cache, o2, names, vals))
+            impl.append(call_all(ops[oi], cache, o2, names, vals, extra))
         else:
             impl.append(call_one_model_view(ops[oi], cache, o2, names, vals))
     return line, " # ".join(impl)
